@@ -84,7 +84,7 @@ def post_of(st):
 def res_of(st, p):
     r = fn(st["res"], p)
     return {"kind": r["kind"], "rc": r["rck"][0], "rcc": r["rck"][1], "tl": r["tl"], "chg": r["chg"], "tot": r["tot"],
-            "ech": r["ech"], "st": bool(r["st"])}
+            "ech": r["ech"], "etot": r["etot"], "st": bool(r["st"])}
 
 
 def start_step(name, a, lab):
@@ -333,19 +333,21 @@ def parallel(jobs, width=5):
 
 # ---------------------------------------------------------------------------------------------------
 NEGATIVES = [("MC_NegReplay.cfg", "OneChargePerQuestion"), ("MC_NegEcho.cfg", "ReplyCookieIsOwn"),
-             ("MC_Forms.cfg", "ClientWithinBudget"), ("MC_NegReuse.cfg", "RememberedIsOwn"),
+             ("MC_Forms.cfg", "ClientWithinBudget"), ("MC_NegFitOutcome.cfg", "SameOutcomeAcrossEntries"),
+             ("MC_NegFitCharge.cfg", "OneChargePerQuestion"), ("MC_NegReuse.cfg", "RememberedIsOwn"),
              ("MC_NegReset.cfg", "EvictionOnlyResets"), ("MC_NegShared.cfg", "NoSharedBucket")]
 
 
 def tlc_jobs(ctx, thorough):
     """Every TLC run of the tier as thunks: state graphs, simulations (their results are driver behaviours), exhaustive
     configs, negative configs.  Returns (jobs, number of leading jobs that yield sequential behaviours)."""
-    quick = [("MC_EntryQ.cfg", 1), ("MC_Free2Q.cfg", 2)]
+    quick = [("MC_EntryQ.cfg", 1), ("MC_Free2Q.cfg", 2), ("MC_Big.cfg", 1)]
     full = [("MC_Entry.cfg", 2), ("MC_Free2.cfg", 3), ("MC_Budget.cfg", 4), ("MC_Cookie.cfg", 4), ("MC_Gate2.cfg", 4),
-            ("MC_Free3.cfg", 3), ("MC_Live.cfg", 3), ("MC_FormsUnmapped.cfg", 1), ("MC_EdgeQ.cfg", 1), ("MC_Budget4.cfg", 4)]
-    negatives = NEGATIVES if thorough else NEGATIVES[:3]
+            ("MC_Free3.cfg", 3), ("MC_Live.cfg", 3), ("MC_FormsUnmapped.cfg", 1), ("MC_EdgeQ.cfg", 1), ("MC_Budget4.cfg", 4),
+            ("MC_Big.cfg", 1), ("MC_Big2.cfg", 3)]
+    negatives = NEGATIVES if thorough else NEGATIVES[:5]
     sims = [("Sim_Budget.cfg", 40, 90), ("Sim_Cookie.cfg", 40, 90), ("Sim_Mixed.cfg", 30, 100), ("Sim_Entry.cfg", 25, 90),
-            ("Sim_Forms.cfg", 12, 80)]
+            ("Sim_Forms.cfg", 12, 80), ("Sim_Big.cfg", 30, 90), ("Sim_Big2.cfg", 20, 90)]
     if thorough:
         sims = [(c, n * 12, d) for c, n, d in sims]
     graphs = ["MC_EdgeTcp.cfg"] + (["MC_Edge.cfg"] if thorough else ["MC_EdgeQ.cfg"])
@@ -395,7 +397,7 @@ def replay_input(groups):
                 k = s["exp"]["kind"] + ("/" + s["entry"] if s["op"] == "call" else "/replay")
                 want[k] = want.get(k, 0) + 1
     need = ["answer/msg", "answer/wire", "answer/inline", "handoff/inline", "answer/replay", "drop/msg", "drop/wire", "drop/inline",
-            "badcookie/msg", "badcookie/wire", "badcookie/inline", "edrop/msg"]
+            "badcookie/msg", "badcookie/wire", "badcookie/inline", "edrop/msg", "tc/msg", "tc/wire", "tc/replay"]
     miss = [k for k in need if not want.get(k)]
     if miss:
         raise vf.MachineryError("pipeline replay: no call with model outcome %s among the behaviours (vacuous)" % miss)
@@ -456,11 +458,14 @@ def gated_verdict(ctx, info, cnt):
         raise vf.MachineryError("gated schedules: %d of %d behaviours drifted from the model" % (cnt.get("drifted", 0), n))
 
 
+STRESS_BURST = 3  # = Burst of Trace_Free.cfg
+
+
 def stress(ctx, thorough):
     """code -> spec.  Returns a list of deferred verdict thunks' data: (kind, payload); nothing is judged on this thread."""
     rounds = 8 if not thorough else 120
     trace = os.path.join(ctx.scratch, "stress.ndjson")
-    res = ctx.go_driver("./x06rl", "TestStress", {"rounds": rounds, "procs": 3, "ops": 5, "burst": 3, "traceOut": trace},
+    res = ctx.go_driver("./x06rl", "TestStress", {"rounds": rounds, "procs": 3, "ops": 5, "burst": STRESS_BURST, "traceOut": trace},
                         name="stress", timeout=900)
     cnt = res.get("counters", {})
     info = {"rounds": cnt.get("rounds", 0), "calls": cnt.get("calls", 0), "overlapping_calls": cnt.get("overlapping_calls", 0),
@@ -489,20 +494,28 @@ def stress(ctx, thorough):
     if not thorough:
         return out
     # binding (re-checked in the thorough tier): a corrupted history must be rejected
+    # (a corrupted outcome of a single call can be explainable in a concurrent history -- a different interleaving may
+    #  verify a cookie that was charged in the recorded one -- so the corruption is one no interleaving explains: more
+    #  tokens left in a bucket than the burst minus the charges every interleaving has to make)
     lines = [json.loads(x) for x in open(trace)]
-    how = None
-    for ln in lines:
-        if ln.get("ev") == "res" and ln.get("kind") == "silent":
-            ln["kind"], ln["tl"], how = "answer", 1, "a refused request reported as answered"
-            break
-    if how is None:
-        for ln in lines:
-            if ln.get("ev") == "end":
-                k = sorted(k for k, v in ln["tok"].items() if v >= 0)
-                if k:
-                    ln["tok"][k[0]] += 1
-                    how = "one token more than was left"
+    how, reqs, cur, definite = None, {}, {}, {}
+    for ln in lines[1:]:
+        ev = ln.get("ev")
+        if ev == "inv":
+            if ln["op"] == "call":
+                reqs[ln["id"]] = ln
+            cur[ln["p"]] = reqs.get(ln["id"])
+        elif ev == "res":
+            rq = cur.get(ln["p"])
+            if rq and rq["ex"] == "none" and (ln["kind"] == "badcookie" or (ln["kind"] in ("answer", "tc") and rq["cc"] == "none")):
+                definite[rq["c"]] = definite.get(rq["c"], 0) + 1
+        elif ev == "end":
+            for k in sorted(ln["tok"]):
+                if ln["tok"][k] >= 0:
+                    ln["tok"][k] = STRESS_BURST - definite.get(k.split("/")[0], 0) + 1
+                    how = "more tokens left than the burst minus the charges that were certainly made"
                     break
+            break
     if how is None:
         raise vf.MachineryError("tamper test: nothing to corrupt in the recorded history")
     bad = os.path.join(ctx.scratch, "stress_tampered.ndjson")
